@@ -1,13 +1,48 @@
+// vcheck runs one property check: vcheck <Cxx> [quick|thorough]
 package main
 
 import (
 	"fmt"
+	"os"
 
-	"github.com/robertkrimen/otto"
+	"verif/harness/internal/c07"
+	"verif/harness/internal/core"
 )
 
+type checkFn func(*core.Ctx) (map[string]any, []string, error)
+
+var checks = map[string]checkFn{
+	"C07": c07.Check,
+}
+
 func main() {
-	vm := otto.New()
-	v, err := vm.Run("1+1")
-	fmt.Println(v, err)
+	if len(os.Args) < 2 {
+		fmt.Println("usage: vcheck <Cxx> [quick|thorough]")
+		os.Exit(2)
+	}
+	prop := os.Args[1]
+	tier := "quick"
+	if len(os.Args) > 2 {
+		tier = os.Args[2]
+	}
+	if t := os.Getenv("VERIF_TIER"); t != "" && len(os.Args) <= 2 {
+		tier = t
+	}
+	fn, ok := checks[prop]
+	if !ok {
+		fmt.Println("unknown property", prop)
+		os.Exit(2)
+	}
+	c, err := core.NewCtx(prop, tier)
+	if err != nil {
+		fmt.Println("setup error:", err)
+		os.Exit(2)
+	}
+	core.RunWitnesses(c)
+	cov, assumptions, err := fn(c)
+	if err != nil {
+		fmt.Println("CHECK-ERROR (not a verdict):", err)
+		os.Exit(2)
+	}
+	os.Exit(c.Finish(cov, assumptions))
 }
